@@ -45,6 +45,7 @@ ANCHORS = [
     (SOCKET_PY, "AsyncioTransportStreamSocketAdapter.recv_into"),
     ("src/easynetwork/lowlevel/api_async/backend/_asyncio/tasks.py", "TaskUtils.coro_yield"),
     (BLOCKING_PY, "_DataReceiverImpl.receive"),
+    ("src/easynetwork/clients/_iter.py", "AsyncClientRecvIterator.__anext__"),
     ("src/easynetwork/lowlevel/api_async/endpoints/stream.py", "_DataReceiverImpl.receive"),
     ("src/easynetwork/lowlevel/api_async/endpoints/stream.py", "_BufferedReceiverImpl.receive"),
     ("src/easynetwork/lowlevel/api_async/servers/stream.py", "_RequestReceiver.next"),
@@ -81,6 +82,7 @@ KNOWN_SIGNATURE = "recv_into-cancelled-in-same-window-as-read-event"
 # ------------------------------------------------------------------------------------------------ labels
 L_RECV, L_INTO, L_DATA, L_EOF, L_LOST, L_CANCEL, L_WAKE, L_TURN = range(8)
 L_RECVPKT = 8        # recorded traces only: recv_packet() / receiver.next() starts
+L_BIGDATA = 10       # mode 7 only: [10, n, seed] = a read event of n generated bytes
 L_TLSOP = 9          # recorded traces only: a retry loop of the TLS transport starts (handshake / recv / recv_into)
 DISABLED = [-1]
 
@@ -238,7 +240,7 @@ class ProtoDriver:
     def __init__(self, loop, flow=False):
         self.loop = loop
         self.flow = flow
-        self.proto = (_small_protocol_class() if flow else _protocol_class())(loop=loop)
+        self.proto = (_small_protocol_class() if flow is True else _protocol_class())(loop=loop)
         self.transport = FlowTransport() if flow else StubTransport()
         self.proto.connection_made(self.transport)
         self.env_exc = EnvError(errno.EPIPE, "scripted connection loss")
@@ -255,6 +257,8 @@ class ProtoDriver:
         self.eof_returned = False
         self._last_size = 0
         self.foreign_suspended = None
+        self.fatal = None
+        self.unexpected = None
 
     # -- helpers
     def _result(self, task, buf):
@@ -274,6 +278,7 @@ class ProtoDriver:
             return [2, 1]
         if isinstance(exc, RuntimeError):
             return [3]
+        self.unexpected = f"a receive ended with {type(exc).__name__}: {exc}"
         return [9, zlib.crc32(type(exc).__name__.encode()) & 0xFFFF]
 
     def _finish_reader_if_done(self):
@@ -317,6 +322,14 @@ class ProtoDriver:
         buf = self.proto.get_buffer(-1)
         view = memoryview(buf)
         room = view.nbytes
+        if room == 0:
+            # _SelectorSocketTransport._read_ready__get_buffer: RuntimeError('get_buffer() returned an empty buffer')
+            # -> _fatal_error -> connection_lost(exc): whatever is parked is dropped
+            view.release()
+            self.fatal = "get_buffer() returned an empty buffer to a transport that was not paused"
+            self.env_lost = True
+            self.proto.connection_lost(self.env_exc)
+            return [4, 0, 0]
         n = min(room, len(payload))
         view[:n] = payload[:n]
         external = self.task_buf is not None and view.obj is self.task_buf
@@ -369,6 +382,8 @@ class ProtoDriver:
             return self.call(True, lab[1])
         if kind == L_DATA:
             return self.data(lab[1])
+        if kind == L_BIGDATA:
+            return self.data(gen_bytes(lab[1], lab[2]))
         if kind == L_EOF:
             return self.eof()
         if kind == L_LOST:
@@ -435,6 +450,48 @@ def replay(labels):
     return with_driver(body)
 
 
+def gen_bytes(n, seed):
+    return bytes((seed + i) % 251 + 1 for i in range(n))
+
+
+def cksum(data):
+    a = 0
+    for x in data:
+        a = (a * 31 + x) % 65521
+    return a
+
+
+def replay_flow_real(labels):
+    """mode 7: the real protocol class (256 KiB buffer), flow control honoured, compact observables"""
+    def body(drv):
+        low, high = drv.proto._get_read_buffer_limits()
+        out = []
+        for lab in labels:
+            o = drv.do(lab)
+            if o and o[0] == 0:
+                o = [0, len(o[1]), cksum(o[1])]
+            out.append([o, int(drv.transport.paused)])
+        return ([out, [len(drv.delivered), cksum(drv.delivered)], [len(drv.returned), cksum(drv.returned)]],
+                [drv.proto.max_size, high, low])
+    return with_driver(body, flow="real")
+
+
+def _real_size_cases(thorough=True):
+    """caller buffers of capacity-1, capacity, capacity+1 and 4x the protocol's own buffer, filled by one read event,
+    the reader cancelled around that read event (both orders), then more data and reads to the end"""
+    cap = _protocol_class().max_size
+    for k in ((cap - 1, cap, cap + 1, 4 * cap) if thorough else (cap - 1, cap, cap + 1)):
+        for order in (0, 1):
+            race = [[L_BIGDATA, k, 3], [L_CANCEL]] if order == 0 else [[L_CANCEL], [L_BIGDATA, k, 3]]
+            labels = [[L_INTO, k]] + race + [[L_TURN], [L_WAKE], [L_BIGDATA, 5000, 9], [L_TURN], [L_WAKE],
+                                             [L_RECV, 8 * cap], [L_TURN], [L_WAKE], [L_BIGDATA, 777, 1],
+                                             [L_RECV, 8 * cap], [L_TURN], [L_WAKE]]
+            out, params_ = replay_flow_real(labels)
+            _cache["F" + repr(labels)] = out
+            yield dict(input=[7, 2, params_, labels], tags=["flow-control", "real-buffer-size", "capacity-boundary"],
+                       nontrivial=True)
+
+
 def replay_flow(labels):
     """mode 5: small buffer, flow control honoured; -> [[obs, paused] per label, delivered, returned], (max, high, low)"""
     def body(drv):
@@ -448,8 +505,22 @@ def replay_flow(labels):
 
 
 def _flow_cases(thorough, rng):
-    sizes = [100, 300, 300, 600, 700, 1000, 1100, 2100]
-    ks = [0, 50, 200, 500, 900, 3000]
+    sizes = [100, 300, 300, 600, 700, 1000, 1100, 2100, 2047, 2048, 2049, 8192]
+    ks = [0, 50, 200, 500, 900, 3000, 2047, 2048, 2049, 8192]
+    # caller buffers of capacity-1, capacity, capacity+1 and 4x, each filled by ONE read, reader cancelled around that
+    # read event (both orders), then more data and a drain
+    for k in (2047, 2048, 2049, 8192):
+        for order in (0, 1):
+            for extra_n in (0, 1, 600):
+                big = bytes(i % 251 + 1 for i in range(k))
+                race = [[L_DATA, big], [L_CANCEL]] if order == 0 else [[L_CANCEL], [L_DATA, big]]
+                labels = [[L_INTO, k]] + race + [[L_TURN], [L_WAKE]]
+                if extra_n:
+                    labels += [[L_DATA, bytes((i * 7) % 251 + 1 for i in range(extra_n))], [L_TURN], [L_WAKE]]
+                labels += [[L_RECV, 100000], [L_TURN], [L_WAKE], [L_DATA, bytes(range(1, 100))], [L_RECV, 100000], [L_TURN], [L_WAKE]]
+                out, params_ = replay_flow(labels)
+                _cache["f" + repr(labels)] = out
+                yield dict(input=[5, 2, params_, labels], tags=["flow-control", "capacity-boundary"], nontrivial=True)
     weights = [(L_RECV, 4), (L_INTO, 4), (L_DATA, 7), (L_EOF, 1), (L_LOST, 1), (L_CANCEL, 2), (L_WAKE, 5), (L_TURN, 5)]
     kinds = [k for k, w in weights for _ in range(w)]
     for _ in range(1200 if thorough else 240):
@@ -478,7 +549,7 @@ def _flow_cases(thorough, rng):
 
 
 # ------------------------------------------------------------------------------------------------ the property
-def property_failure(labels):
+def property_failure(labels, flow=False):
     """The property, stated on the implementation: replay the labels, then read the connection to its end.
     Successful receives must return the delivered stream in order, without loss or duplication; only a reported
     connection error may cut the tail."""
@@ -486,7 +557,15 @@ def property_failure(labels):
         for lab in labels:
             drv.do(lab)
         drv.settle()
-        if not drv.env_lost and not drv.env_eof:
+        if flow:
+            # read until the transport is resumed (a paused transport delivers neither data nor EOF)
+            for _ in range(8):
+                if not drv.transport.paused or drv.error_seen:
+                    break
+                if drv.task is None:
+                    drv.call(False, 1 << 22)
+                drv.settle()
+        if not drv.env_lost and not drv.env_eof and not (flow and drv.transport.paused):
             drv.data(b"\xfe")            # something for a still-suspended receive, then a clean end of stream
             drv.settle()
             drv.eof()
@@ -495,10 +574,17 @@ def property_failure(labels):
             if drv.error_seen or drv.eof_returned:
                 break
             if drv.task is None:
-                drv.call(False, 1 << 16)
+                drv.call(False, 1 << 22)
             drv.settle()
-        return bytes(drv.delivered), bytes(drv.returned), set(drv.exposed), drv.error_seen, drv.eof_returned
-    delivered, returned, exposed, error_seen, eof_returned = with_driver(body)
+        return (bytes(drv.delivered), bytes(drv.returned), set(drv.exposed), drv.error_seen, drv.eof_returned,
+                drv.fatal, drv.unexpected, flow and drv.transport.paused and not drv.env_lost)
+    delivered, returned, exposed, error_seen, eof_returned, fatal, unexpected, stuck = with_driver(body, flow=flow)
+    if fatal:
+        return f"UNEXPLAINED: {fatal}: asyncio aborts the connection and the parked bytes are dropped"
+    if unexpected:
+        return f"UNEXPLAINED: {unexpected}"
+    if stuck:
+        return "UNEXPLAINED: the transport stays paused although the application has read everything (deadlock)"
     if delivered.startswith(returned) and (error_seen or returned == delivered):
         if not error_seen and not eof_returned:
             return "UNEXPLAINED: the stream was never read to its end (a receive stays suspended after EOF)"
@@ -583,6 +669,10 @@ def _oracle(inp):
         return property_failure(inp[2])
     if inp[0] in (1, 4):
         return blocking_failure(inp)
+    if inp[0] == 5:
+        return property_failure(inp[3], flow=True)
+    if inp[0] == 7:
+        return property_failure(inp[3], flow="real")
     if inp[0] == 3:
         return _oracle([2, 2, None, inp[4]])
     if inp[0] == 6:
@@ -602,6 +692,11 @@ def signature(inp, failure):
 
 
 def shrink(inp):
+    if inp[0] == 5:
+        labels = inp[3]
+        for i in range(len(labels)):
+            yield [5, inp[1], inp[2], labels[:i] + labels[i + 1:]]
+        return
     if inp[0] != 0:
         return
     labels = inp[2]
@@ -626,6 +721,11 @@ def run_impl(inp):
         return run_blocking(inp[1], inp[2], inp[3], inp[4])
     if inp[0] == 4:
         return run_blocking(inp[1], inp[2], inp[3], inp[4], buffered=True)
+    if inp[0] == 7:
+        key = "F" + repr(inp[3])
+        if key in _cache:
+            return _cache.pop(key)
+        return replay_flow_real(inp[3])[0]
     if inp[0] == 5:
         key = "f" + repr(inp[3])
         if key in _cache:
@@ -789,6 +889,7 @@ def cases(tier, rng, escalate):
         yield dict(input=[0, 2, labels], tags=["proto", "random"] + tags, nontrivial=nontrivial)
     yield from _mode2_cases(thorough, rng)
     yield from _flow_cases(thorough, rng)
+    yield from _real_size_cases(thorough)
     for inp, origin in _blocking_cases(thorough, rng):
         has_timeout = any(e[0] == 2 for e in inp[4]) or any(inp[3])
         yield dict(input=inp, tags=["blocking", origin] + (["timeout-event"] if has_timeout else []), nontrivial=has_timeout)
@@ -1118,8 +1219,8 @@ def run_scenario(scenario):
                             return [0, await receive(None)]
                         assert scope.cancelled_caught()
                         return [1]
-                    if cancel_kind == 3:
-                        return [0, await receive(_t(budget))]       # the receiver's own timeout parameter
+                    if cancel_kind in (3, 5):
+                        return [0, await receive(_t(budget))]       # the receiver's / iterator's own timeout parameter
                     if cancel_kind == 4:
                         # task.cancel() `budget[0]` loop iterations after every read event, whatever the task is doing
                         started[0] = False
@@ -1152,7 +1253,7 @@ def run_scenario(scenario):
                 except ConnectionAbortedError:
                     return [2]
                 except StopAsyncIteration:
-                    return [2]
+                    return [2] if layer != 4 else [1]      # the iterator ends the same way on timeout and on EOF
                 except OSError as exc:          # e.g. ssl.SSLError after ciphertext went missing
                     import ssl as _ssl
                     return [4] if isinstance(exc, _ssl.SSLError) else [3, exc.errno or 0]
@@ -1221,6 +1322,29 @@ def _receive_fn(layer, consumer, backend, adapter, packets):
 
         async def receive(timeout):
             return bytes(await ep.recv_packet())
+        return receive
+    if layer == 4:
+        from easynetwork.clients._iter import AsyncClientRecvIterator
+        from easynetwork.lowlevel.api_async.endpoints.stream import AsyncStreamEndpoint
+        ep4 = AsyncStreamEndpoint(adapter, _make_protocols(consumer), max_recv_size=8)
+
+        class _Client:
+            """what AsyncClientRecvIterator needs from a client: backend() and recv_packet()"""
+
+            def backend(self):
+                return backend
+
+            async def recv_packet(self):
+                return await ep4.recv_packet()
+
+        client = _Client()
+
+        async def receive(timeout):
+            if timeout is None:
+                return bytes(await ep4.recv_packet())
+            # one __anext__ of iter_received_packets(timeout=...)
+            it = AsyncClientRecvIterator(client, timeout)
+            return bytes(await it.__anext__())
         return receive
     if layer == 1:
         from easynetwork.lowlevel import _stream
@@ -1486,6 +1610,14 @@ def _scenario_cases(thorough, rng):
                 for s2 in subs:
                     events = [[[1, s1], 0, chunks[0]], [[2, s2], 0, chunks[1]]]
                     yield [2, consumer, cancel_kind, 0, ops, events], "grid"
+    # AsyncClientRecvIterator.__anext__ (iter_received_packets): its timeout, incl. 0 with packets already in the consumer
+    for consumer in (0, 1):
+        for first in ([1, 0], [0, 0]):
+            for budgets in ([[0, 0]] * 4, [[0, 0], [1, 0], [0, 0], [0, 0]], [[1, 0]] * 4):
+                for at in ([0, 0], [1, -1], [1, 0], [1, 1]):
+                    events = [[at, 0, b"A\nB\nC\nD\n"], [[3, 0], 0, b"EF\nG"], [[4, 0], 0, b"H\n"]]
+                    ops_i = [[[0, 0], first]] + [[[0, 0], b] for b in budgets]
+                    yield [4, consumer, 5, 0, ops_i, events], "grid"
     # TLS over a lower transport whose send_all() is a checkpoint (as trio's streams, or the adapter under write flow
     # control): a cancellation k loop iterations after a read event can land inside tls.recv()/recv_into() after the
     # plaintext left the SSL object
@@ -1518,9 +1650,10 @@ def _scenario_cases(thorough, rng):
         yield [layer, consumer, cancel_kind, rng.randint(0, 1), ops_r, events], "random"
 
 
-LAYER_NAMES = {0: "endpoint", 1: "server-receiver", 2: "tls", 3: "tls-over-checkpointing-transport"}
+LAYER_NAMES = {0: "endpoint", 1: "server-receiver", 2: "tls", 3: "tls-over-checkpointing-transport",
+               4: "client-recv-iterator"}
 CANCEL_NAMES = {0: "timeout", 1: "move_on_after", 2: "task-cancel", 3: "receiver-timeout-arg",
-                4: "task-cancel-k-iterations-after-read-event"}
+                4: "task-cancel-k-iterations-after-read-event", 5: "iterator-timeout"}
 
 
 def _mode2_cases(thorough, rng):
@@ -1540,7 +1673,7 @@ def _mode2_cases(thorough, rng):
             _cache["t" + repr(runner_norm(scenario))] = (tlabels, tout)
             yield dict(input=[6, tlabels, answers, scenario], tags=["tls-retry-loop-model"] + tags[1:],
                        nontrivial=any(lab[0] == L_CANCEL for lab in labels))
-        if scenario[0] not in (2, 3) and detect_fixed():
+        if scenario[0] not in (2, 3, 4) and detect_fixed():
             # the composed model Conc/SockEndpoint.v (receive loop + repaired protocol) against the same run
             results = _last_results[0]
             elabels = run_scenario.last_elabels
